@@ -92,6 +92,10 @@ pub struct Ctx {
     /// keep the byte case being executed in a file (crash attribution); worth it only
     /// when a case costs milliseconds
     pub journal_bytes: Cell<bool>,
+    /// byte cases already dealt with by an earlier incarnation of this shard (it crashed):
+    /// they are generated but not executed again
+    pub fast_forward: Cell<u64>,
+    case_no: Cell<u64>,
 }
 
 pub const MAX_SAMPLES: usize = 6;
@@ -123,6 +127,8 @@ impl Ctx {
             violations: Cell::new(0),
             quiet: false,
             journal_bytes: Cell::new(false),
+            fast_forward: Cell::new(0),
+            case_no: Cell::new(0),
         }
     }
 
@@ -352,9 +358,15 @@ impl Ctx {
             );
             let result = runner.run(&strat, |bytes| {
                 self.beat();
+                if first_sig.borrow().is_none() {
+                    self.case_no.set(self.case_no.get() + 1);
+                    if self.case_no.get() <= self.fast_forward.get() {
+                        return Ok(());
+                    }
+                }
                 if !self.strict && self.journal_bytes.get() {
                     // crash attribution: the case being executed is always on disk
-                    let rec = format!("{{\"kind\":\"{}\",\"payload\":{{\"bytes\":\"{}\"}}}}", kind, hex(&bytes));
+                    let rec = format!("{{\"kind\":\"{}\",\"n\":{},\"payload\":{{\"bytes\":\"{}\"}}}}", kind, self.case_no.get(), hex(&bytes));
                     if !self.skip.is_empty() && self.skip.contains(&fnv(rec.as_bytes())) {
                         self.discard("skipped: hung or aborted in an earlier incarnation of this shard");
                         return Ok(());
